@@ -35,7 +35,9 @@ fn authorities(thorough: bool) -> Vec<String> {
 }
 
 fn modules(thorough: bool) -> Vec<String> {
-    let mut v: Vec<String> = ["m", "M", "~", "%2f", "..", ".", "m.n", "a-b_c", "%2e%2e", "m%2f..", "..m"]
+    // "t", "ta", "tar" with paths "aroot.cer", "root.cer", "oot.cer": the
+    // same characters with the module / path boundary shifted
+    let mut v: Vec<String> = ["m", "M", "~", "%2f", "..", ".", "m.n", "a-b_c", "%2e%2e", "m%2f..", "..m", "t", "ta", "tar"]
         .iter().map(|s| s.to_string()).collect();
     if thorough { for s in ["m m", "m:n", "m@n", "m\\n", "%00", "m;n", "m,n"] { v.push(s.to_string()) } }
     v
@@ -45,7 +47,7 @@ fn paths(thorough: bool) -> Vec<String> {
     let mut v: Vec<String> = [
         "x.cer", "X.cer", "x/y.mft", "a/b/c.roa", "!$&'()*+,;=:@.cer",
         "../x.cer", "a/../../b.cer", "./x.cer", "x%2fy.cer", "%2e%2e/z.cer",
-        "", "a//b.cer", "a/b.cer", "/x.cer", "//etc/x.cer", "~x.cer", "..", "a/..", "a/./b.cer",
+        "", "a//b.cer", "a/b.cer", "/x.cer", "aroot.cer", "root.cer", "oot.cer", "a/root.cer", "ar/oot.cer", "//etc/x.cer", "~x.cer", "..", "a/..", "a/./b.cer",
         "x.cer/", "..x.cer", "x..cer", "a/%2e%2e/b.cer", "a\\..\\b.cer",
     ].iter().map(|s| s.to_string()).collect();
     if thorough {
